@@ -55,8 +55,8 @@ class Opaque:
     def __init__(self, kind, val): self.kind, self.val = kind, val
     def __repr__(self): return 'Opaque(%s,%r)' % (self.kind, self.val)
 class ChanV:
-    __slots__ = ('buf', 'cap', 'closed', 'name')
-    def __init__(self, cap): self.buf = []; self.cap = cap; self.closed = False
+    __slots__ = ('buf', 'cap', 'closed', 'name', 'senders')
+    def __init__(self, cap): self.buf = []; self.cap = cap; self.closed = False; self.senders = []
 
 class PathEnd(Exception): pass
 class GoPanic(Exception):
